@@ -462,6 +462,23 @@ func init() {
 		}
 		return tuple{"", false}
 	}
+	st[V+"JSONMap"] = func(fr *frame, args []value) value {
+		raw, _ := args[0].([]value)
+		m := &amap{}
+		for _, r := range raw {
+			if o, ok := r.(*opaque); ok && o.kind == "json" {
+				var keys []string
+				for k := range o.data {
+					keys = append(keys, k)
+				}
+				sort.Strings(keys)
+				for _, k := range keys {
+					m.entries = append(m.entries, &mapEntry{key: k, val: o.data[k]})
+				}
+			}
+		}
+		return m
+	}
 	st[V+"LoginCounts"] = func(fr *frame, args []value) value {
 		p := fr.i.p
 		var keys []string
